@@ -377,6 +377,8 @@ class Hist:
             op = {"op": "getv", "h": h, "keys": keys}
             self.qform(h, op)
             self.ops.append(op)
+            if rng.random() < 0.15 and not op.get("as_list"):
+                self.ops.append(dict(op, reuse=True))      # the same query array object once more
         elif k == "set":
             if cls == "HashSet":
                 return
@@ -440,6 +442,8 @@ class Hist:
             else:
                 self.qform(h, op)
             self.ops.append(op)
+            if rng.random() < 0.15 and not op.get("as_list") and not op.get("scalar"):
+                self.ops.append(dict(op, reuse=True))
         elif k == "items":
             self.ops.append({"op": "items", "h": h, "f": rng.choice(["items", "to_dict"])})
         elif k == "repr":
@@ -589,7 +593,7 @@ def deliver(rng, wl, kind, mod):
         for f in fragments(stream):
             cnt(f)
             if rng.random() < 0.3:
-                cnt(f)
+                ops.append(dict(ops[-1], reuse=True))       # the very same batch array object delivered again
     elif kind == "interleaved_reads":
         derived = False
         for f in fragments(stream):
